@@ -62,6 +62,14 @@ Proof. exact publish_src_eq. Qed.
 Theorem C12_src_asyncio : forall ident secret es, Q (arun_src ident secret es).
 Proof. exact src_run_Q. Qed.
 
+(* the Twisted ClientSessionService glue, translated from hpfeeds/twisted/service.py on every run (pytrans6.py; TwGenEq.v) *)
+From HP Require Import TwSession TwGenEq.
+Theorem C12_src_twisted : forall ident secret es, Q (trun_src ident secret es).
+Proof. exact src_trun_Q. Qed.
+Theorem C12_src_twisted_on_publish_is_model : forall ident secret k body i c d s, readpublish body = Some (i, c, d) ->
+  on_frame ident secret k 3 body s = (TwProtocol_on_publish i c d s, false).
+Proof. exact tw_on_publish_src_eq. Qed.
+
 Print Assumptions C12_asyncio.
 Print Assumptions C12_blocking_session.
 Print Assumptions C12_asyncio_stream.
@@ -71,3 +79,5 @@ Print Assumptions C12_legacy_stream.
 Print Assumptions C12_src_asyncio_on_publish_is_model.
 Print Assumptions C12_src_asyncio_publish_is_model.
 Print Assumptions C12_src_asyncio.
+Print Assumptions C12_src_twisted.
+Print Assumptions C12_src_twisted_on_publish_is_model.
